@@ -476,6 +476,7 @@ inductive Outcome where
   | rejected (e : Err)   -- ante failed: nothing written
   | failed (e : Err)     -- messages or the fee sweep failed: only the ante branch is written
   | ok
+  deriving DecidableEq
 
 def Outcome.isOk : Outcome → Bool
   | .ok => true
@@ -525,31 +526,128 @@ def recheckTx (cfg : Cfg) (tx : Tx) (s : St) : St × Option Err :=
 
 /-! ### One transaction's life in the mempool across a change of the fee schedule
 
-`CheckTx(New)` under the configuration `cfg` in force when it arrives; then (optionally) a block
-that does not contain it is committed and changes msgfees params / schedule to `cfg'` (a passed
-governance proposal); CometBFT rechecks it on the committed state (`s` again: what `CheckTx`
-wrote went to the mempool state only, which a commit resets); if it is still in the mempool it is
-executed in a later block, under `cfg'`. `force` = a proposer includes it although the mempool
-check refused it (outside the property's quantifier, kept for the correspondence). -/
+`CheckTx(New)` under the configuration `cfg` in force when it arrives, on the mempool state `s0`
+of that moment; then (optionally) a block that does not contain it is committed and changes
+msgfees params / schedule to `cfg'` (a passed governance proposal); CometBFT rechecks it on the
+state `s1` committed by then (what `CheckTx` wrote went to the mempool state only, which a commit
+resets); if it is still in the mempool it is executed in a later block, under `cfg'`, on the
+state `s` the transactions before it in that block left.  The three states are INDEPENDENT: other
+transactions (of the same payer or not) run between admission, recheck and execution.  `force` =
+a proposer includes it although the mempool check refused it (outside the property's
+quantifier, kept for the correspondence).  The correspondence harness runs the three stages on
+one committed state (`s0 = s1 = s`); the theorems are for all three. -/
 structure Life where
   check : Option Err                 -- `none` = admitted
   checkSt : St                       -- mempool state after CheckTx(New)
   recheck : Option (Option Err)      -- `none` = not rechecked (no commit in between / not in the mempool)
-  recheckSt : St                     -- mempool state after the recheck (= `s` when not rechecked)
+  recheckSt : St                     -- mempool state after the recheck (= `s1` when not rechecked)
   inMempool : Bool                   -- still admitted when the block is proposed
   run : Option Run                   -- executed (in the mempool, or forced)
 
-def life (cfg cfg' : Cfg) (re force : Bool) (tx : Tx) (s : St) : Life :=
-  let (cs, cerr) := checkTx cfg tx s
+def life (cfg cfg' : Cfg) (re force : Bool) (tx : Tx) (s0 s1 s : St) : Life :=
+  let (cs, cerr) := checkTx cfg tx s0
   match cerr with
   | some e =>
     -- never entered the mempool: nothing is rechecked, the schedule change is irrelevant to it
-    ⟨some e, cs, none, s, false, if force then some (deliverTx cfg tx s) else none⟩
+    ⟨some e, cs, none, s1, false, if force then some (deliverTx cfg tx s) else none⟩
   | none =>
     if re then
-      let (rs, rerr) := recheckTx cfg' tx s
+      let (rs, rerr) := recheckTx cfg' tx s1
       ⟨none, cs, some rerr, rs, rerr.isNone,
         if rerr.isNone ∨ force then some (deliverTx cfg' tx s) else none⟩
-    else ⟨none, cs, none, s, true, some (deliverTx cfg tx s)⟩
+    else ⟨none, cs, none, s1, true, some (deliverTx cfg tx s)⟩
+
+/-! ### A sequence of transactions
+
+`FinalizeBlock` runs `runTx` for each transaction of the block, in order, each on the state the
+previous one left (forked baseapp.go `internalFinalizeBlock`: one `finalizeBlockState`, a branch
+per transaction written back as `runTx` prescribes); successive blocks continue from the
+committed state.  `St` is the part of the chain state ONE transaction reads and writes: all
+balances, the allowance granter → payer it uses, the payer's sequence.  `Chain` is the whole of
+it: the allowance of every (granter, grantee) pair, the sequence of every account.  An element of
+the sequence carries the configuration in force in its block (it may differ between blocks). -/
+structure Chain where
+  ledger : Ledger
+  allows : Addr → Addr → Allow     -- granter → grantee ↦ fee allowance
+  seqs : Addr → Nat                -- account ↦ sequence
+
+/-- What transaction `tx` sees of the chain state. -/
+def Chain.view (c : Chain) (tx : Tx) : St :=
+  { ledger := c.ledger,
+    allow := match tx.granter with
+      | some g => c.allows g tx.payer
+      | none => .none,
+    seq := c.seqs tx.payer }
+
+/-- Writing back what `tx` left: the ledger, ITS allowance and ITS payer's sequence. -/
+def Chain.put (c : Chain) (tx : Tx) (s : St) : Chain :=
+  { ledger := s.ledger,
+    allows := fun g p => if tx.granter = some g ∧ p = tx.payer then s.allow else c.allows g p,
+    seqs := fun a => if a = tx.payer then s.seq else c.seqs a }
+
+/-- One transaction of a block on the chain state. -/
+def deliverIn (cfg : Cfg) (c : Chain) (tx : Tx) : Chain × Run :=
+  let r := deliverTx cfg tx (c.view tx)
+  (c.put tx r.final, r)
+
+/-- The chain state after a sequence of executed transactions (each with the configuration in
+force in its block). -/
+def runTxs : Chain → List (Cfg × Tx) → Chain
+  | c, [] => c
+  | c, (cfg, tx) :: rest => runTxs (deliverIn cfg c tx).1 rest
+
+/-- … and what happened to each. -/
+def runsOf : Chain → List (Cfg × Tx) → List Run
+  | _, [] => []
+  | c, (cfg, tx) :: rest => (deliverIn cfg c tx).2 :: runsOf (deliverIn cfg c tx).1 rest
+
+/-- `CheckTx` of one transaction on the MEMPOOL copy of the chain state (`checkState`: reset to
+the committed state at every commit, then written by each admitted transaction's ante branch). -/
+def checkIn (cfg : Cfg) (c : Chain) (tx : Tx) : Chain × Option Err :=
+  let r := checkTx cfg tx (c.view tx)
+  (c.put tx r.1, r.2)
+
+/-- The mempool state after a sequence of arriving transactions. -/
+def checkTxs : Chain → List (Cfg × Tx) → Chain
+  | c, [] => c
+  | c, (cfg, tx) :: rest => checkTxs (checkIn cfg c tx).1 rest
+
+/-! ### Nested messages as a tree
+
+A transaction body is a forest: each message is routed (`PioMsgServiceRouter`'s handler wrapper
+consumes its fees FIRST — `Generated.FeeWiring.routerCalls`), then its handler works; the handler
+of authz `MsgExec` (x/authz/keeper `DispatchActions`) checks the grant of each inner message
+(`pre`, before that message is routed) and routes it through the SAME router, so inner messages
+— at any depth — are charged like top-level ones.  `Forest` is first-child / next-sibling: a
+forest is empty, or a first message with the forest it dispatches (`children`) followed by its
+sibling forest. -/
+inductive Forest where
+  | nil
+  | node (pre : List Step) (m : RMsg) (handler : List Step) (children siblings : Forest)
+
+/-- The order in which the router and the handlers act: pre-order. -/
+def Forest.flatten : Forest → List Step
+  | .nil => []
+  | .node pre m h ch sib => pre ++ Step.route m :: (h ++ (ch.flatten ++ sib.flatten))
+
+/-- `tx.GetMsgs()`: the roots — all the ante handler and the mempool check can see. -/
+def Forest.roots : Forest → List RMsg
+  | .nil => []
+  | .node _ m _ _ sib => m :: sib.roots
+
+/-- Every message of the forest, nested ones included, in routing order. -/
+def Forest.allMsgs : Forest → List RMsg
+  | .nil => []
+  | .node _ m _ ch sib => m :: (ch.allMsgs ++ sib.allMsgs)
+
+/-- The messages dispatched from inside another message (depth ≥ 1). -/
+def Forest.nested : Forest → List RMsg
+  | .nil => []
+  | .node _ _ _ ch sib => ch.allMsgs ++ sib.nested
+
+/-- Sibling concatenation. -/
+def Forest.append : Forest → Forest → Forest
+  | .nil, g => g
+  | .node pre m h ch sib, g => .node pre m h ch (sib.append g)
 
 end PvModel.Txfee
